@@ -240,7 +240,9 @@ def sim_cases(tier):
                                             "table": table})))
     # two workflows: delayed task of the first finishes while the second runs
     wa = dag("chain2", [1, 1], [0])
-    for s2 in (1, 2):
+    # (s2 late: b reaches the scheduler after a's delayed task completed --
+    # a delay once reported must stay reported)
+    for s2 in (1, 2, 6, 9, 12):
         obs = [mkobs("a", 0, 1, 1, 1, 1, "wa"),
                mkobs("b", s2, 1, 1, 1, 1, "wb")]
         cfg = mkcfg(CLUSTERS[2][0], obs, (100, 10), (100, 10), 2, 2)
